@@ -166,3 +166,13 @@ Definition fstep (outs : list (list Z)) (s : fl) (e : fev) : fl :=
   end.
 Definition fl_init (outs : list (list Z)) : fl := mkFl (map (fun _ => O) outs) 0 0 [].
 Definition frun (outs : list (list Z)) (evs : list fev) : fl := fold_left (fstep outs) evs (fl_init outs).
+
+(* ---------- prefix (overlap) sizes ---------- *)
+(* ZSTDMT_createCompressionJob: the job takes the prefix left by the previous one; the next prefix is
+   MIN(srcSize, targetPrefixSize) of the job being prepared.  [p0]: the prefix of the first job (a raw-content
+   dictionary / ZSTD_CCtx_refPrefix, else 0).  Over the sizes of the posted jobs in order. *)
+Definition job_prefixes (p0 ptarget : Z) (sizes : list Z) : list Z :=
+  match sizes with
+  | [] => []
+  | _ :: _ => p0 :: map (Z.min ptarget) (removelast sizes)
+  end.
